@@ -414,6 +414,10 @@ carquet_status_t carquet_batch_reader_next(
             /* No nulls in REQUIRED columns */
             size_t bitmap_size = ((size_t)col_data->num_values + 7) / 8;
             col_data->null_bitmap = calloc(1, bitmap_size);  /* All zeros = no nulls */
+            if (!col_data->null_bitmap) {
+                read_error = true;
+                continue;
+            }
 
             /* Consume the rows handed out */
             col_reader->page_values_read += (int32_t)rows_to_read;
@@ -448,17 +452,29 @@ carquet_status_t carquet_batch_reader_next(
             /* Allocate null bitmap */
             size_t bitmap_size = ((size_t)rows_to_read + 7) / 8;
             col_data->null_bitmap = calloc(1, bitmap_size);
+            if (!col_data->null_bitmap) {
+                read_error = true;
+                continue;
+            }
 
             /* Read values */
             int16_t* def_levels = NULL;
             if (max_def > 0) {
                 def_levels = malloc(sizeof(int16_t) * (size_t)rows_to_read);
+                if (!def_levels) {
+                    /* Without the levels the nulls of this column would be lost */
+                    read_error = true;
+                    continue;
+                }
             }
 
             int64_t values_read = carquet_column_read_batch(
                 col_reader, col_data->data, rows_to_read, def_levels, NULL);
 
-            if (values_read < 0) {
+            /* The column reader returns the rows it got before an error; in a
+             * batch every column must deliver exactly rows_to_read rows, so a
+             * short read is a failed batch, not a shorter column. */
+            if (values_read != rows_to_read) {
                 read_error = true;
                 free(def_levels);
                 continue;
